@@ -282,6 +282,8 @@ def families():
     F['spacer_sol'] = S.single(S.design(2, wire=False, corr=('CTD', 'CTD', 'CTD'),
                                         spacer={'corr': 'CDD', 'axial_positions': [0.1, 0.2, 0.3], 'solidity': 0.25}),
                                0.5, power=_PW2)
+    F['spacer_k'] = S.single(S.design(2, wire=False, corr=('CTD', 'CTD', 'CTD'),
+                                      spacer={'loss_coeff': 1.5, 'axial_positions': [0.1, 0.2, 0.3]}), 0.5, power=_PW2)
     F['fuelmodel'] = S.single(S.design(2, fuelmodel=dict(_FUEL, gap_thickness=6e-5)), 0.5, power=_PW2)
     F['fuelmodel_fc'] = S.single(S.design(2, fuelmodel=dict(_FUEL, fcgap_thickness=6e-5)), 0.5, power=_PW2)
     F['pinmodel'] = S.single(S.design(2, pinmodel=dict(_PIN, gap_thickness=3e-5)), 0.5, power=_PW2)
@@ -339,7 +341,7 @@ DATA_FAMILIES = ('full_a', 'full_b', 'core_min', 'setup', 'regions', 'regions_no
                  'fuelmodel_fc', 'pinmodel', 'pinmodel_fc', 'bc_outlet', 'bc_delta', 'orificing', 'multiduct', 'cold_nak',
                  'range_flow', 'range_outlet', 'range_delta',
                  'setup_mesh', 'setup_plane', 'setup_dump', 'setup_cutoff', 'setup_tables',
-                 'holes_flow', 'holes_outlet', 'holes_delta')
+                 'holes_flow', 'holes_outlet', 'holes_delta', 'spacer_k')
 SWEEP_FAMILIES = ('sw_single', 'sw_core7')
 QUICK_SWEEPS = (('cm', 'celsius', 'kg/s'), ('mm', 'fahrenheit', 'lb/min'), ('in', 'kelvin', 'lb/hr'),
                 ('ft', 'celsius', 'kg/s'), ('m', 'fahrenheit', 'kg/s'))
